@@ -7,7 +7,7 @@
     model's). *)
 From Coq Require Import List ZArith PArith Bool.
 From KaiV Require Import Model.Res Model.Status Model.AMap Model.Node Model.NodeSpec Proofs.Node Proofs.Admissible
-     Run.NodeObs Run.Cycle Proofs.CycleSafe.
+     Run.NodeObs Run.Cycle Run.C01 Proofs.CycleSafe.
 Import ListNotations.
 Open Scope Z_scope.
 
@@ -68,6 +68,32 @@ Theorem C01_cycle_idle_never_negative :
     replay ts ns cs = Some (ns', true) -> NodesNN ns'.
 Proof. intros ts cs ns ns'. exact (cycle_idle_never_negative ts cs ns ns'). Qed.
 Print Assumptions C01_cycle_idle_never_negative.
+
+(** The snapshot accounts every pod that occupies a node.  "The pods already
+    occupying the node (running, terminating, bound or being bound)": a pod with
+    a node name or a BindRequest whose phase is Pending or Running - deleted or
+    not, gated or not - is classified with a status that NodeInfo.AddTasksToNode
+    charges (an active-used status), so the capacity it holds is never idle in
+    the scheduler's books.  [task_status] (Run/C01.v) is the model of
+    pod_info.getTaskStatus, compared with the real constructor on all 80
+    combinations on every run. *)
+Theorem C01_occupying_pods_are_accounted :
+  forall (ph : phase) (deleting on_node has_br gated : bool),
+    occupies ph on_node has_br = true ->
+    active_used (task_status ph deleting on_node has_br gated) = true.
+Proof.
+  intros ph deleting on_node has_br gated H.
+  destruct ph, deleting, on_node, has_br, gated; try reflexivity; discriminate H.
+Qed.
+Print Assumptions C01_occupying_pods_are_accounted.
+
+(** ... and a terminating pod is accounted as terminating: its capacity is releasing, not idle. *)
+Theorem C01_terminating_pods_are_releasing :
+  forall (ph : phase) (on_node has_br gated : bool),
+    occupies ph on_node has_br = true ->
+    task_status ph true on_node has_br gated = Releasing.
+Proof. intros ph on_node has_br gated H. destruct ph, on_node, has_br, gated; try reflexivity; discriminate H. Qed.
+Print Assumptions C01_terminating_pods_are_releasing.
 
 (** Whole GPUs, for nodes without shared-GPU work: all six columns of the books
     are exact (C14_node_wholegpu_exact), so the same argument covers GPUs.
